@@ -206,7 +206,19 @@ pub const OPEN_ERRNOS: [i32; 13] = [
     libc::ENOMEM,
     libc::EIO,
 ];
-pub const WRITE_ERRNOS: [i32; 4] = [libc::ENOSPC, libc::EDQUOT, libc::EFBIG, libc::EIO];
+/// errno values write(2) may legally fail with on a file: persistent ones and transient ones
+/// (a caller that retries a transient error must still end with an exact file or an Err).
+pub const WRITE_ERRNOS: [i32; 9] = [
+    libc::ENOSPC,
+    libc::EDQUOT,
+    libc::EFBIG,
+    libc::EIO,
+    libc::EAGAIN,
+    libc::ETIMEDOUT,
+    libc::EPIPE,
+    libc::EPERM,
+    libc::ENOMEM,
+];
 /// Output sizes an SVG run is padded to exactly: 2^n - 1, 2^n, 2^n + 1 and a few
 /// odd multiples of common buffer/chunk sizes (off-by-one territory for chunked writers).
 pub fn pad_sizes() -> Vec<usize> {
@@ -649,7 +661,7 @@ pub fn exec_run(ctx: &Ctx, run: &IoRun, stats: &mut Stats) -> (Vec<OpReport>, u6
     let mut h: u64 = run.seed;
     stats.runs += 1;
     for (i, op) in run.ops.iter().enumerate() {
-        let rep = exec_op(&dir, i, op, stats);
+        let rep = exec_op(&dir, i, op, stats, None);
         h = fold(h, digest128(&[format!("{}|{}|{}|{:?}", rep.result, rep.file, rep.expected_len, rep.delivered.log).as_bytes()])[0]);
         let stop = rep.violation.is_some();
         reports.push(rep);
@@ -681,35 +693,24 @@ fn resolve_path(dir: &Path, t: &Target) -> String {
     }
 }
 
-pub fn exec_op(dir: &Path, idx: usize, op: &IoOp, stats: &mut Stats) -> OpReport {
-    stats.ops += 1;
-    let mut rep = OpReport {
-        skipped: None,
-        expected_len: 0,
-        result: String::new(),
-        file: String::new(),
-        delivered: Default::default(),
-        path_class: op.target.class().to_string(),
-        violation: None,
-    };
-    let skip = |mut rep: OpReport, why: &str, stats: &mut Stats| {
-        stats.ops_skipped += 1;
-        stats.bump(&format!("skip:{}", why), 1);
-        rep.skipped = Some(why.to_string());
-        rep
-    };
+/// The QR code, the final setter list (after size padding) and the in-memory rendering of an
+/// operation. Computed right before the call normally; concurrent-caller runs compute it for
+/// every operation *before* the callers start, so that nothing a caller leaves behind can
+/// influence what "the bytes the in-memory rendering produces" means.
+pub struct Prepared {
+    pub qr: Box<QRCode>,
+    pub setters: Vec<RSetter>,
+    pub expected: Vec<u8>,
+}
 
-    // 1. the QR code (C19 is not about building: anything but Ok skips the op)
+/// `Err(reason)`: the operation is not a C19 case (the QR code or the in-memory rendering is not Ok).
+pub fn prepare(op: &IoOp) -> Result<Prepared, &'static str> {
     let qr = match catch_unwind(|| op.qr.fresh_builder().build()) {
-        Ok(Ok(qr)) => qr,
-        Ok(Err(_)) => return skip(rep, "qr_err", stats),
-        Err(_) => return skip(rep, "qr_panic", stats),
+        Ok(Ok(qr)) => Box::new(qr),
+        Ok(Err(_)) => return Err("qr_err"),
+        Err(_) => return Err("qr_panic"),
     };
-
-    // 2. the renderer and the in-memory rendering = the expected file content
     let mut setters = op.setters.clone();
-    let svg_b;
-    let img_b;
     let expected: Vec<u8>;
     match op.kind {
         Kind::Svg => {
@@ -718,7 +719,7 @@ pub fn exec_op(dir: &Path, idx: usize, op: &IoOp, stats: &mut Stats) -> OpReport
                 let probe = catch_unwind(AssertUnwindSafe(|| svg_builder_from(&setters).to_str(&qr).len()));
                 let base = match probe {
                     Ok(n) => n,
-                    Err(_) => return skip(rep, "render_panic", stats),
+                    Err(_) => return Err("render_panic"),
                 };
                 let cur_fill = setters
                     .iter()
@@ -739,22 +740,57 @@ pub fn exec_op(dir: &Path, idx: usize, op: &IoOp, stats: &mut Stats) -> OpReport
             let b = svg_builder_from(&setters);
             match catch_unwind(AssertUnwindSafe(|| b.to_str(&qr).into_bytes())) {
                 Ok(e) => expected = e,
-                Err(_) => return skip(rep, "render_panic", stats),
+                Err(_) => return Err("render_panic"),
             }
-            svg_b = Some(b);
-            img_b = None;
         }
         Kind::Png => {
             let b = img_builder_from(&setters);
             match catch_unwind(AssertUnwindSafe(|| b.to_bytes(&qr))) {
                 Ok(Ok(e)) => expected = e,
-                Ok(Err(_)) => return skip(rep, "render_err", stats),
-                Err(_) => return skip(rep, "render_panic", stats),
+                Ok(Err(_)) => return Err("render_err"),
+                Err(_) => return Err("render_panic"),
             }
-            svg_b = None;
-            img_b = Some(b);
         }
     }
+    Ok(Prepared { qr, setters, expected })
+}
+
+pub fn exec_op(dir: &Path, idx: usize, op: &IoOp, stats: &mut Stats, pre: Option<&Prepared>) -> OpReport {
+    stats.ops += 1;
+    let mut rep = OpReport {
+        skipped: None,
+        expected_len: 0,
+        result: String::new(),
+        file: String::new(),
+        delivered: Default::default(),
+        path_class: op.target.class().to_string(),
+        violation: None,
+    };
+    let skip = |mut rep: OpReport, why: &str, stats: &mut Stats| {
+        stats.ops_skipped += 1;
+        stats.bump(&format!("skip:{}", why), 1);
+        rep.skipped = Some(why.to_string());
+        rep
+    };
+
+    // 1+2. the QR code, the renderer, and the in-memory rendering = the expected file content
+    let computed;
+    let prep: &Prepared = match pre {
+        Some(p) => p,
+        None => match prepare(op) {
+            Ok(p) => {
+                computed = p;
+                &computed
+            }
+            Err(why) => return skip(rep, why, stats),
+        },
+    };
+    let qr: &QRCode = &prep.qr;
+    let expected: &Vec<u8> = &prep.expected;
+    let (svg_b, img_b) = match op.kind {
+        Kind::Svg => (Some(svg_builder_from(&prep.setters)), None),
+        Kind::Png => (None, Some(img_builder_from(&prep.setters))),
+    };
     rep.expected_len = expected.len();
     if let Some(t) = op.pad_to {
         if expected.len() == t {
@@ -839,7 +875,7 @@ pub fn exec_op(dir: &Path, idx: usize, op: &IoOp, stats: &mut Stats) -> OpReport
     } else {
         match std::fs::read(&path) {
             Ok(got) => {
-                if got == expected {
+                if got == *expected {
                     ("exact".into(), true)
                 } else {
                     (
@@ -858,8 +894,13 @@ pub fn exec_op(dir: &Path, idx: usize, op: &IoOp, stats: &mut Stats) -> OpReport
     let hard = delivered.hard() > 0 || op.target.kernel_fault() || kernel_limit_bites;
 
     match &outcome {
+        Err(p) if p.downcast_ref::<crate::SimCrash>().is_some() => {
+            // the simulator itself killed this caller mid-call (concurrent-caller runs): no verdict
+            rep.result = "Died(injected)".into();
+            stats.bump("fired:caller_killed_mid_call", 1);
+        }
         Err(p) => {
-            let msg = if p.downcast_ref::<crate::SimCrash>().is_some() { "SimCrash".to_string() } else { panic_message(p.as_ref()) };
+            let msg = panic_message(p.as_ref());
             rep.result = format!("Panic({})", msg);
             stats.result_panic += 1;
             rep.violation = Some(Violation {
